@@ -4,8 +4,9 @@
    over an abstract filesystem layout: what sits at ~/.dippy/config, at <level>/.dippy for every level of the
    RESOLVED ancestor chain of the cwd (nearest first, root last), and at $DIPPY_CONFIG.
    Python exceptions are explicit: ConfigError (-> the hook answers ask) and any other exception escaping
-   load_config (PermissionError out of _find_project_config, RuntimeError out of Path.expanduser,
-   UnicodeDecodeError out of read_text: -> main()'s catch-all prints {}), called Crash here.
+   load_config (UnicodeDecodeError out of read_text: -> main()'s catch-all prints {}), called Crash here.
+   _find_project_config itself lets PermissionError escape (Crash of find_project); load_config turns it into a
+   ConfigError (fix d952e10).  An unexpandable $DIPPY_CONFIG (~nosuchuser) is skipped (fix 291c4e0).
    parse_config is a Section variable; a line-fold instance (parse_lines) is defined at the end. *)
 From DippyV Require Import Base.Str.
 
@@ -131,7 +132,7 @@ Record place := mkPlace { pl_path : str; pl_entry : entry }.
 Inductive envl :=
 | EnvUnset
 | EnvEmpty                (* set to "": falsy *)
-| EnvNoUser               (* "~nosuchuser/..." : expanduser raises RuntimeError *)
+| EnvNoUser               (* "~nosuchuser/..." : expanduser raises RuntimeError: caught, the layer is skipped *)
 | EnvAt (p : place).      (* the expanded path and what it names *)
 
 Record layout := mkLayout {
@@ -154,7 +155,7 @@ Fixpoint find_project (chain : list place) : res (option (place * readres)) :=
       match is_file (pl_entry p) with
       | IsYes r => Ok (Some (p, r))
       | IsNo => find_project up
-      | IsErr => Crash                      (* PermissionError: no handler on this path *)
+      | IsErr => Crash                      (* PermissionError escapes _find_project_config ... *)
       end
   end.
 
@@ -179,8 +180,11 @@ Section Load.
     | IsNo => Ok c
     | IsErr => ConfigErr                    (* except PermissionError: raise ConfigError *)
     end.
+  (* try: _find_project_config(cwd)  except PermissionError: raise ConfigError *)
+  Definition find_project_checked (chain : list place) : res (option (place * readres)) :=
+    match find_project chain with Crash => ConfigErr | r => r end.
   Definition load_project (lay : layout) (c : config) : res config :=
-    bind (find_project (l_chain lay)) (fun o =>
+    bind (find_project_checked (l_chain lay)) (fun o =>
       match o with
       | Some (p, r) => add_layer c p s_project r
       | None => Ok c
@@ -188,7 +192,7 @@ Section Load.
   Definition load_env (lay : layout) (c : config) : res config :=
     match l_env lay with
     | EnvUnset | EnvEmpty => Ok c
-    | EnvNoUser => Crash                    (* expanduser() is outside the try *)
+    | EnvNoUser => Ok c                     (* except RuntimeError: return config *)
     | EnvAt p =>
         match is_file (pl_entry p) with
         | IsYes r => add_layer c p s_env r
@@ -221,11 +225,10 @@ Fixpoint nearest (chain : list place) : option place :=
   | p :: up => match is_file (pl_entry p) with IsNo => nearest up | _ => Some p end
   end.
 Definition eff_project (chain : list place) : res layer :=
-  match nearest chain with None => Ok None | Some p => eff_at p Crash end.
+  match nearest chain with None => Ok None | Some p => eff_at p ConfigErr end.
 Definition eff_env (e : envl) : res layer :=
   match e with
-  | EnvUnset | EnvEmpty => Ok None
-  | EnvNoUser => Crash
+  | EnvUnset | EnvEmpty | EnvNoUser => Ok None
   | EnvAt p => eff_at p ConfigErr
   end.
 Definition effective (lay : layout) : res (layer * layer * layer) :=
